@@ -9,6 +9,7 @@ import (
 	"fmt"
 	"io"
 	"net/http"
+	"runtime"
 	"sort"
 	"strconv"
 	"strings"
@@ -97,11 +98,43 @@ func (c *Client) guard(r *Res, f func()) {
 			r.Panic = fmt.Sprint(p)
 			r.OK = false
 			r.Code = "PANIC"
-			c.S.Violate("C14.panic", "handler", "handler panicked: %v", p)
+			c.S.Violate("C14.panic", "handler", "handler panicked: %v\n%s", p, panicFrames())
 		}
 		r.Ret = c.S.Now()
 	}()
 	f()
+}
+
+// panicFrames returns the frames of the panicking stack that belong to the
+// code under test (called from a deferred function).
+func panicFrames() string {
+	buf := make([]byte, 32<<10)
+	n := runtime.Stack(buf, false)
+	var out []string
+	lines := strings.Split(string(buf[:n]), "\n")
+	for i := 0; i+1 < len(lines); i++ {
+		if strings.Contains(lines[i], "buchgr/bazel-remote/v2/") && !strings.HasPrefix(lines[i], "\t") {
+			loc := strings.TrimSpace(lines[i+1])
+			if j := strings.Index(loc, " +0x"); j >= 0 {
+				loc = loc[:j]
+			}
+			if j := strings.LastIndex(loc, "/"); j >= 0 {
+				loc = loc[j+1:]
+			}
+			fn := lines[i]
+			if j := strings.LastIndexByte(fn, '('); j > 0 {
+				fn = fn[:j]
+			}
+			if j := strings.LastIndexByte(fn, '/'); j >= 0 {
+				fn = fn[j+1:]
+			}
+			out = append(out, fn+" ("+loc+")")
+			if len(out) >= 8 {
+				break
+			}
+		}
+	}
+	return strings.Join(out, " < ")
 }
 
 var (
